@@ -10,4 +10,4 @@ CONSTANTS
   MaxBatchOps = 1
   Stops = {0}
   Muts = {TRUE}
-  Ops = {"Get", "Set", "Delete", "DeletePrefix", "Clear", "Close", "Batched", "Iterate", "BSet", "BDelete", "Cancel", "Commit"}
+  Ops = {"Get", "Set", "Delete", "DeletePrefix", "Clear", "Close", "Batched", "Iterate", "IterMut", "BSet", "BDelete", "Cancel", "Commit"}
